@@ -14,10 +14,10 @@
 EXTENDS ChaiCore
 P == INSTANCE PositionOps WITH ArithmeticMinus <- FALSE
 
-ECases == ndJsonDeserialize(IOEnv.IN)
+ECases(x) == ndJsonDeserialize(IOEnv.IN)
 DecideErr(c) == LET rs == RunSegs(c.segs, 1, M0, <<>>) IN
                 [id |-> c.id,
                  segs |-> [i \in 1..Len(rs) |-> [oc |-> rs[i].oc, out |-> rs[i].out, stack |-> rs[i].stack]],
                  toks |-> [i \in 1..Len(c.segs) |-> P!Scan(c.segs[i].cls)]]
-ExportErr == ndJsonSerialize(IOEnv.OUT, [i \in 1..Len(ECases) |-> DecideErr(ECases[i])])
+ExportErr(x) == LET cs == ECases(x) IN ndJsonSerialize(IOEnv.OUT, [i \in 1..Len(cs) |-> DecideErr(cs[i])])
 =============================================================================
